@@ -2740,8 +2740,8 @@ def orbital_equinox2equinox(epoch0, epoch, i0, arg0, lon0):
     etar = eta.rad()
     lon0r = lon0.rad()
     pir = pie.rad()
-    # If i0 is very small, the procedure is different
-    if i0 < 1.0:
+    # If i0 is zero, the procedure is different
+    if abs(i0) < TOL:
         i1 = eta
         lon1 = pie + p + 180.0
     else:
